@@ -369,6 +369,20 @@ impl<'a, T: RealNumber, M: Matrix<T>, K: Kernel<T, M::RowVector>> Optimizer<'a, 
             .max(T::epsilon() * T::from_f64(8.0).unwrap() * magnitude)
     }
 
+    /// 64-bit fingerprint of the optimizer state (all multipliers and gradients).
+    fn state_fingerprint(&self) -> u64 {
+        let mut h: u64 = 0xcbf2_9ce4_8422_2325;
+        for v in self.sv.iter() {
+            for x in [v.alpha[0], v.alpha[1], v.grad[0], v.grad[1]].iter() {
+                h ^= x.to_f64().unwrap_or(f64::NAN).to_bits();
+                h = h.wrapping_mul(0x0000_0100_0000_01B3);
+                h ^= h >> 29;
+                h = h.wrapping_mul(0x9E37_79B9_7F4A_7C15);
+            }
+        }
+        h
+    }
+
     /// Solvs the quadratic programming (QP) problem that arises during the training of support-vector machines (SVM) algorithm.
     /// Returns:
     /// * support vectors
@@ -378,7 +392,33 @@ impl<'a, T: RealNumber, M: Matrix<T>, K: Kernel<T, M::RowVector>> Optimizer<'a, 
 
         self.find_min_max_gradient();
 
+        // Cycle guard. Each iteration is a deterministic function of the multipliers and the
+        // gradients, so a state that comes back would come back forever: with large kernel values
+        // (features far from zero under a polynomial kernel, single precision) rounding in the
+        // multiplier updates, or a curvature that cancels to zero, makes the loop walk through
+        // the same few states without ever reaching the tolerance. Brent's algorithm compares
+        // the current state with one remembered state; runs that converge never repeat a state
+        // and are not affected.
+        let mut remembered: Option<u64> = None;
+        let mut steps_since: u64 = 0;
+        let mut window: u64 = 1;
+
         while self.gmax - self.gmin > self.resolvable_tol() {
+            let state = self.state_fingerprint();
+            match remembered {
+                None => remembered = Some(state),
+                Some(r) => {
+                    steps_since += 1;
+                    if state == r {
+                        break;
+                    }
+                    if steps_since == window {
+                        remembered = Some(state);
+                        window *= 2;
+                        steps_since = 0;
+                    }
+                }
+            }
             #[cfg(smartcore_verif)]
             crate::verif::tick("svr-smo", || {
                 crate::verif::digest_words(self.sv.iter().flat_map(|v| {
